@@ -58,11 +58,13 @@ type gateAlg struct {
 	gate  chan struct{}
 	chain addchain.Chain // what FindChain returns (nil when it fails)
 	err   error
+	calls int32
 }
 
 func (a *gateAlg) String() string { return fmt.Sprintf("alg%d", a.id) }
 
 func (a *gateAlg) FindChain(n *big.Int) (addchain.Chain, error) {
+	atomic.AddInt32(&a.calls, 1)
 	<-a.gate
 	if a.err != nil {
 		return nil, a.err
@@ -311,6 +313,7 @@ func scenario(k, limit int, strategy string) (o obs) {
 		ias[i] = a
 	}
 	var res []exec.Result
+	var callNotes []string
 	var pan interface{}
 	finished := make(chan struct{})
 	go func() {
@@ -322,6 +325,11 @@ func scenario(k, limit int, strategy string) (o obs) {
 		}()
 		out := p.Execute(n, ias)
 		res = append([]exec.Result{}, out...) // what the slice holds at the moment of return
+		for _, a := range as {
+			if c := atomic.LoadInt32(&a.calls); c != 1 {
+				callNotes = append(callNotes, fmt.Sprintf("FindChain of algorithm %d had been called %d time(s) when Execute returned", a.id, c))
+			}
+		}
 		rec.add("r")
 	}()
 	waitFinished := func(d time.Duration) bool {
@@ -416,6 +424,7 @@ func scenario(k, limit int, strategy string) (o obs) {
 	snapshot()
 
 	// ---- direct observations for the oracle ----
+	o.notes = append(o.notes, callNotes...)
 	if n.Cmp(n0) != 0 {
 		o.notes = append(o.notes, "the target was modified")
 	}
@@ -578,6 +587,8 @@ func run(c string) string {
 		return "ok 1"
 	case "race":
 		return raceRun()
+	case "named":
+		return observeNamed(c).resultLine()
 	case "lang":
 		return "ok " + lib.Bool(legal(lib.Atoi(field(f[1], "k")), lib.Atoi(field(f[2], "limit")), splitTrace(field(f[3], "trace"))))
 	}
@@ -636,6 +647,8 @@ func oracle(c, res string) string {
 		}
 		bad = append(bad, o.notes...)
 		return strings.Join(bad, "; ")
+	case "named":
+		return oracleNamed(c)
 	case "race":
 		if res != "ok norace" {
 			return "race detector run failed: " + raceLog
@@ -684,6 +697,8 @@ func gen(tier string, r *lib.Rand, emit func(string)) {
 	if tier == "thorough" {
 		maxk, langk, nmut = 7, 3, 6
 	}
+	// algorithm identity: same-named, repeated, oddly named algorithms (after seeded change C12-9)
+	genNamed(tier, r, emit)
 	var observed []obs
 	do := func(k, limit int, strategy string) {
 		if atomic.LoadInt32(&expiries) >= 8 {
@@ -924,6 +939,8 @@ func main() {
 				return res == "ok 1"
 			case "race":
 				return res == "ok norace"
+			case "named":
+				return strings.HasPrefix(res, "ok slots=")
 			}
 			return false
 		},
